@@ -18,6 +18,7 @@ class Verifier:
     def __init__(self, engine):
         self.eng = engine
         self.functions = {}     # qual -> dict(status, paths, digest, ...)
+        self.carves = {}        # qual -> [(group regex, clause source)]
         from . import state as _state
         _state.AXIOMATIZER[0] = lambda fs: self.axioms_for(
             fs, depth=self.eng.opts.get('unfold', 2))
@@ -160,6 +161,24 @@ class Verifier:
             eng.old_state = None
             eng.frames.pop()
 
+    def carved(self, fn, group, entry, env, st):
+        """known finding: the obligation is proved with exactly the finding's
+        input class excluded (DESIGN 6); the exclusion is a clause over the
+        entry state"""
+        import re as _re
+        cs = [src for (rx, src) in self.carves.get(fn.qual, [])
+              if _re.search(rx, group)]
+        if not cs:
+            return st
+        s2 = st.fork()
+        for src in cs:
+            e = ast.parse(src, mode='eval').body
+            v = self.eng.spec_eval(e, entry, env, old=entry)
+            s2.assume(self.eng.truth(v, entry))
+            self.eng.assume_note('CARVED (known finding): %s proved under %s'
+                                 % (group, src))
+        return s2
+
     def check_return(self, fn, c, entry, env, st, result):
         eng = self.eng
         env2 = dict(env)
@@ -169,8 +188,9 @@ class Verifier:
         line = fn.node.lineno
         for k, e in enumerate(c.ensures):
             v = eng.spec_eval(e, post, env2, old=entry)
-            eng.oblige(st, eng.truth(v, post), '%s::ensures#%d' % (fn.qual, k),
-                       'post', ast.unparse(e)[:200], line,
+            g = '%s::ensures#%d' % (fn.qual, k)
+            eng.oblige(self.carved(fn, g, entry, env, st), eng.truth(v, post),
+                       g, 'post', ast.unparse(e)[:200], line,
                        c.clause_prop.get(('ensures', k), c.properties))
         for k, e in enumerate(c.must_fail):
             v = eng.spec_eval(e, post, env2, old=entry)
@@ -239,7 +259,8 @@ class Verifier:
                 else:
                     goal = eng.truth(eng.spec_eval(when, entry, env,
                                                    old=entry), entry)
-                eng.oblige(st, goal, '%s::raises:%s' % (fn.qual, name),
+                g = '%s::raises:%s' % (fn.qual, name)
+                eng.oblige(self.carved(fn, g, entry, env, st), goal, g,
                            'post', '%s raised at line %d only when: %s' % (
                                exc.cls, exc.line,
                                ast.unparse(when) if when is not None
@@ -247,7 +268,8 @@ class Verifier:
                            c.clause_prop.get(('raises', name), c.properties))
                 self.check_frame(fn, c, entry, env, st)
                 return
-        eng.oblige(st, z3.BoolVal(False), '%s::escape:%s' % (fn.qual, exc.cls),
+        g = '%s::escape:%s' % (fn.qual, exc.cls)
+        eng.oblige(self.carved(fn, g, entry, env, st), z3.BoolVal(False), g,
                    'post', '%s raised at line %d must not escape' % (
                        exc.cls, exc.line), exc.line, c.properties)
 
